@@ -1059,3 +1059,160 @@ def _fold(e, diag):
         t = _fold(e.test, diag)
         return _fold(e.body, diag) if t else _fold(e.orelse, diag)
     raise AnalysisError("coupling coefficient `%s` outside the analysed fragment" % src(e))
+
+
+# ---------------------------------------------------------------------------------------------------
+# R-MAINVARS, R-SOLVEVALS, R-TRILORDER, R-PSDSTORE
+# ---------------------------------------------------------------------------------------------------
+def r_mainvars(ctx):
+    """Main variables are sized by the leaf counters; the solution is read back from the same variables."""
+    repo = ctx.repo
+    be = _be(repo, "cvxpy")
+    fn = be.methods["set_main_variables"]
+    ctx.unit(qualname(fn))
+    shapes = {}
+    for s in flow.stmts_of(fn, ast.Assign):
+        if isinstance(s.value, ast.Call) and call_name(s.value) == "Variable" and s.value.args:
+            shapes[dotted(s.targets[0])] = (src(s.value.args[0]).replace(" ", ""), any(k.arg == "symmetric" and is_const(k.value, True) for k in s.value.keywords))
+    ok = shapes.get("self.F", ("",))[0] in ("(Expression.counter,)", "Expression.counter") and shapes.get("self.G") == ("(Point.counter,Point.counter)", True)
+    ctx.ob("R-MAINVARS", "CvxpyWrapper.set_main_variables", ok,
+           "F has one entry per leaf expression, G is a symmetric matrix with one row per leaf point" if ok else "main variables are %s" % shapes, loc(fn, fn))
+    sv = be.methods["solve"]
+    vals = {dotted(s.targets[0]): src(s.value) for s in flow.stmts_of(sv, ast.Assign)}
+    ok = vals.get("self.optimal_G") == "self.G.value" and vals.get("self.optimal_F") == "self.F.value"
+    ctx.ob("R-SOLVEVALS", "CvxpyWrapper.solve", ok, "the primal solution is read from the main variables" if ok else
+           "optimal_G / optimal_F are read from %s / %s" % (vals.get("self.optimal_G"), vals.get("self.optimal_F")), loc(sv, sv))
+    rets = [r for r in ast.walk(sv) if isinstance(r, ast.Return)]
+    okr = len(rets) == 1 and isinstance(rets[0].value, ast.Tuple) and len(rets[0].value.elts) == 3 and src(rets[0].value.elts[2]) == "self.objective.value"
+    ctx.ob("R-SOLVEVALS", "CvxpyWrapper.solve::value of the original objective", okr,
+           "solve returns the value of the stored objective expression (not the value of the problem last solved, which a heuristic replaces)" if okr else
+           "solve returns `%s` as value" % (src(rets[0].value.elts[2]) if rets and isinstance(rets[0].value, ast.Tuple) and len(rets[0].value.elts) == 3 else "?"), loc(sv, sv))
+    mb = _be(repo, "mosek")
+    fn = mb.methods["set_main_variables"]
+    ctx.unit(qualname(fn))
+    bar = [c for c in ast.walk(fn) if isinstance(c, ast.Call) and call_name(c) == "appendbarvars"]
+    ok = len(bar) == 1 and src(bar[0].args[0]).replace(" ", "") == "[Point.counter]"
+    ctx.ob("R-MAINVARS", "MosekWrapper.set_main_variables", ok, "the Gram matrix variable has one row per leaf point" if ok else "Gram variable sized by %s" % (src(bar[0].args[0]) if bar else None), loc(fn, fn))
+    sv = mb.methods["solve"]
+    vals = {dotted(s.targets[0]): s.value for s in flow.stmts_of(sv, ast.Assign)}
+    g = vals.get("self.optimal_G")
+    okg = isinstance(g, ast.Call) and call_name(g) == "_get_Gram_from_mosek" and isinstance(g.args[0], ast.Call) and call_name(g.args[0]) == "getbarxj" \
+        and is_const(g.args[0].args[1], 0) and dotted(g.args[1]) == "Point.counter"
+    f = vals.get("self.optimal_F")
+    okf = f is not None and (isinstance(f, ast.Name) and isinstance(vals.get(f.id), ast.Call) and call_name(vals[f.id]) == "getxx" or isinstance(f, ast.Call) and call_name(f) == "getxx")
+    ctx.ob("R-SOLVEVALS", "MosekWrapper.solve", okg and okf, "the primal solution is barx_0 and xx" if okg and okf else "optimal_G from barx_0: %s, optimal_F from xx: %s" % (okg, okf), loc(sv, sv))
+
+
+def r_trilorder(ctx):
+    """MOSEK returns a symmetric matrix as its lower triangle, column by column; the unpacking must fill (row, col) and (col, row) in that order."""
+    mb = _be(ctx.repo, "mosek")
+    fn = mb.methods.get("_get_Gram_from_mosek")
+    if fn is None:
+        raise AnalysisError("MosekWrapper._get_Gram_from_mosek missing")
+    ctx.unit(qualname(fn))
+    ps = params_of(fn)
+    tril, size = ps[-2], ps[-1]
+    for n in (1, 2, 3, 4):
+        try:
+            writes = _run_index_program(fn, {size: n}, tril)
+        except AnalysisError as e:
+            ctx.ob("R-TRILORDER", "MosekWrapper._get_Gram_from_mosek::size=%d" % n, False, "index program not interpretable: %s" % e, loc(fn, fn))
+            continue
+        want = {}
+        k = 0
+        for j in range(n):
+            for i in range(j, n):
+                want[(i, j)] = k
+                want[(j, i)] = k
+                k += 1
+        ok = writes == want
+        ctx.ob("R-TRILORDER", "MosekWrapper._get_Gram_from_mosek::size=%d" % n, ok,
+               "entry k of the packed lower triangle (column-major) fills (row, col) and (col, row)" if ok else
+               "for size %d the unpacking maps %s, MOSEK's packed lower triangle is %s" % (n, sorted(writes.items()), sorted(want.items())), loc(fn, fn))
+
+
+def _run_index_program(fn, env, tril):
+    """Concrete unrolling of a pure index program (range loops, integer counters, G[a, b] = tril[c])."""
+    env = dict(env)
+    writes = {}
+
+    def iv(e):
+        if isinstance(e, ast.Constant) and isinstance(e.value, int):
+            return e.value
+        if isinstance(e, ast.Name) and e.id in env:
+            return env[e.id]
+        if isinstance(e, ast.BinOp) and isinstance(e.op, (ast.Add, ast.Sub, ast.Mult, ast.FloorDiv)):
+            a, b = iv(e.left), iv(e.right)
+            return {ast.Add: a + b, ast.Sub: a - b, ast.Mult: a * b, ast.FloorDiv: a // b if b else 0}[type(e.op)]
+        raise AnalysisError("index expression `%s`" % src(e))
+
+    def run(stmts):
+        for s in stmts:
+            if isinstance(s, ast.For) and isinstance(s.iter, ast.Call) and call_name(s.iter) == "range" and isinstance(s.target, ast.Name):
+                for v in range(*[iv(a) for a in s.iter.args]):
+                    env[s.target.id] = v
+                    run(s.body)
+            elif isinstance(s, ast.Assign) and isinstance(s.targets[0], ast.Name):
+                if isinstance(s.value, ast.Call):
+                    env[s.targets[0].id] = "matrix"
+                else:
+                    env[s.targets[0].id] = iv(s.value)
+            elif isinstance(s, ast.AugAssign) and isinstance(s.target, ast.Name) and isinstance(s.op, ast.Add):
+                env[s.target.id] = env[s.target.id] + iv(s.value)
+            elif isinstance(s, ast.Assign) and isinstance(s.targets[0], ast.Subscript) and isinstance(s.targets[0].slice, ast.Tuple) \
+                    and isinstance(s.value, ast.Subscript) and dotted(s.value.value) == tril:
+                a, b = [iv(x) for x in s.targets[0].slice.elts]
+                writes[(a, b)] = iv(s.value.slice)
+            elif isinstance(s, ast.Return):
+                return
+            else:
+                raise AnalysisError("statement `%s`" % norm_stmt(s)[:50])
+
+    run(fn.body)
+    return writes
+
+
+def r_psdstore(ctx):
+    """PSDMatrix keeps Expression entries, turns a scalar entry c into the constant expression {1: c}, and rejects anything else; the matrix is square."""
+    cls = ctx.repo.cls("PSDMatrix")
+    fn = cls.find_method("_store")
+    if fn is None:
+        raise AnalysisError("PSDMatrix._store missing")
+    ctx.unit(qualname(fn))
+    ifs = [s for s in flow.stmts_of(fn, ast.If) if any(isinstance(c, ast.Call) and call_name(c) == "isinstance" for c in ast.walk(s.test))]
+    ok = False
+    msg = "entry dispatch not found"
+    if ifs:
+        arms, orelse = flow.closed_chain(ifs[0])
+        kinds = {}
+        for t, body in arms:
+            ks = set()
+            for c in ast.walk(t):
+                if isinstance(c, ast.Call) and call_name(c) == "isinstance":
+                    k = c.args[1]
+                    for x in (k.elts if isinstance(k, ast.Tuple) else [k]):
+                        ks.add(dotted(x))
+            kinds[frozenset(ks)] = body
+        scal = kinds.get(frozenset({"int", "float"}))
+        expr = kinds.get(frozenset({"Expression"}))
+        ok = scal is not None and expr is not None and len(arms) == 2 and bool(orelse) and flow.always_raises(orelse)
+        msg = "dispatch on Expression / scalar, anything else raises" if ok else "dispatch arms are %s" % [sorted(k) for k in kinds]
+        if ok:
+            st = [s for s in scal if isinstance(s, ast.Assign)]
+            good = len(st) == 1 and isinstance(st[0].value, ast.Call) and call_name(st[0].value) == "Expression" and is_const(get_arg(st[0].value, 0, "is_leaf"), False)
+            if good:
+                dd = get_arg(st[0].value, 1, "decomposition_dict")
+                good = isinstance(dd, ast.Dict) and len(dd.keys) == 1 and is_const(dd.keys[0], 1) and src(dd.values[0]) == src(st[0].targets[0])
+            ok = good and all(isinstance(s, ast.Pass) for s in expr)
+            if not ok:
+                msg = "a scalar entry c does not become the constant expression {1: c} in place (or Expression entries are altered)"
+    ctx.ob("R-PSDSTORE", "PSDMatrix._store::entries", ok, msg, loc(fn, fn))
+    sq = [a for a in ast.walk(fn) if isinstance(a, ast.Assert) and "shape" in src(a.test)]
+    ctx.ob("R-PSDSTORE", "PSDMatrix._store::square", bool(sq), "the matrix is asserted square" if sq else "no squareness assertion", loc(fn, fn))
+    init = cls.methods["__init__"]
+    okc = any(isinstance(s, ast.Assign) and dotted(s.targets[0]) == "self.matrix_of_expressions" and isinstance(s.value, ast.Call) and call_name(s.value) == "_store" for s in init.body) \
+        and any(isinstance(s, ast.Assign) and dotted(s.targets[0]) == "self.shape" and src(s.value) == "self.matrix_of_expressions.shape" for s in init.body)
+    ctx.ob("R-PSDSTORE", "PSDMatrix.__init__", okc, "stores the converted matrix and its shape" if okc else "does not store the converted matrix / its shape", loc(init, init))
+    gi = cls.methods.get("__getitem__")
+    okg = gi is not None and any(isinstance(r, ast.Return) and src(r.value) == "self.matrix_of_expressions[%s]" % params_of(gi)[1] for r in ast.walk(gi))
+    ctx.ob("R-PSDSTORE", "PSDMatrix.__getitem__", okg, "indexing reads the stored matrix" if okg else "indexing does not read the stored matrix", loc(gi, gi) if gi else cls.module.rel)
